@@ -54,12 +54,13 @@ def abstract_nlri(fam, i, pid, mask=24):
     return w.nlri_ip(1, 128, a, int(m), pid, (100,), w.rd_type0(65000, 1))
 
 
-def attrs_for(pad: int, ncomm: int) -> str:
+def attrs_for(pad: int, ncomm: int, padx: bool = False) -> str:
+    """padx: the padding attribute is asked for with the Extended Length flag (0x10) although its value is short"""
     t = 'med 7'
     if ncomm:
         t += ' community [ ' + ' '.join(f'65000:{c}' for c in range(ncomm)) + ' ]'
     if pad >= 0:
-        t += ' attribute [ 0x99 0xc0 0x' + 'ab' * pad + ' ]'
+        t += ' attribute [ 0x99 ' + ('0xd0' if padx else '0xc0') + ' 0x' + 'ab' * pad + ' ]'
     return t
 
 
@@ -171,7 +172,7 @@ def run_point(pt):
     """pt: dict(ext, addpath, fams, nh, pad, ncomm, counts{fam:n}, mode, mask)"""
     neighbor, neg, api, s = get(pt['ext'], pt['addpath'])
     ap = set(c01.ADDPATH_FAMS) if pt['addpath'] else set()
-    attrs_text = attrs_for(pt['pad'], pt['ncomm'])
+    attrs_text = attrs_for(pt['pad'], pt['ncomm'], pt.get('padx', False))
     specs_a, specs_w = [], []
     idx = 0
     for fam in pt['fams']:
@@ -213,10 +214,10 @@ def run_point(pt):
     return viols, len(msgs)
 
 
-def probe_overhead(ext, addpath, fam, pad, ncomm, mask):
+def probe_overhead(ext, addpath, fam, pad, ncomm, mask, padx=False):
     """Size of a one-route message -> (fixed overhead, per-prefix size) measured on the implementation."""
     neighbor, neg, api, s = get(ext, addpath)
-    a = attrs_for(pad, ncomm)
+    a = attrs_for(pad, ncomm, padx)
     one = generate(neg, build(neighbor, api, [(fam, 1, 0, mask)], a), [])
     two = generate(neg, build(neighbor, api, [(fam, 1, 0, mask), (fam, 2, 0, mask)], a), [])
     if len(one) != 1 or len(two) != 1:
@@ -241,6 +242,9 @@ def grid(tier):
                         for pad in pads:
                             for ncomm in ((0, 62, 63, 64) if (not ext and fams == ('v4',) and pad == 0) else (0,)):
                                 pts.append(dict(ext=ext, addpath=addpath, fams=fams, nh=nh, pad=pad, ncomm=ncomm, mask=mask, size=size))
+                        if nh == 1 and mask == 24:
+                            # the padding attribute with the Extended Length flag on a 3-octet value
+                            pts.append(dict(ext=ext, addpath=addpath, fams=fams, nh=nh, pad=3, padx=True, ncomm=0, mask=mask, size=size))
     return pts
 
 
@@ -254,7 +258,7 @@ def worker(args):
         fits = {}
         skip = False
         for fam in g['fams']:
-            o = probe_overhead(g['ext'], g['addpath'], fam, g['pad'], g['ncomm'], g['mask'])
+            o = probe_overhead(g['ext'], g['addpath'], fam, g['pad'], g['ncomm'], g['mask'], g.get('padx', False))
             if o is None:
                 skip = True
                 break
@@ -331,7 +335,7 @@ def worker(args):
 
 
 def _desc(pt):
-    return f'max {pt["size"]} addpath {pt["addpath"]} families {pt["fams"]} next hops {pt["nh"]} pad {pt["pad"]} communities {pt["ncomm"]} counts {pt["counts"]} mode {pt["mode"]}'
+    return f'max {pt["size"]} addpath {pt["addpath"]} families {pt["fams"]} next hops {pt["nh"]} pad {pt["pad"]}{" (extended length flag)" if pt.get("padx") else ""} communities {pt["ncomm"]} counts {pt["counts"]} mode {pt["mode"]}'
 
 
 def _j(pt):
